@@ -15,6 +15,8 @@
 (*   Gc          QueryGarbageCollector.collect / KVGarbageCollector.collect*)
 (*   Delete      storage.delete_event (service path)                       *)
 (*   Crash       process death: queued but unwritten operations are lost   *)
+(*   Load        cli `load`: a dump pushed through add_event, end observed *)
+(*   (look-ups by id - get_event, GET /e/<id> - are reads, see LookupOK)   *)
 (* Every action is a relation with exactly the freedom the property        *)
 (* statements grant ("equal timestamps may be resolved either way", ...).  *)
 (***************************************************************************)
@@ -33,6 +35,10 @@ Ev(i) == Universe[i]
 Ids == DOMAIN Universe
 
 Admissible(i) == Ev(i).auth /\ i \notin PolicyRefused
+\* An authentic event that is malformed in a way the validators do not look at (a deletion whose e reference is not an
+\* id, an expiration tag without a value) is not "well-formed": the relay may refuse it - and then it leaves no trace -
+\* or accept it like any other.  The flag is set by the universe (an oracle independent of the relay), default FALSE.
+Dubious(i) == "dub" \in DOMAIN Ev(i) /\ Ev(i).dub
 
 ----------------------------------------------------------------------------
 (* what applying an accepted event may and must do to the store *)
@@ -69,7 +75,7 @@ Init == /\ store = {}
 
 (* An EVENT (or a direct add_event call) for id i answered with OK = ok *)
 Refuse(i, ok) ==
-    /\ ~Admissible(i)
+    /\ ~Admissible(i) \/ Dubious(i)
     /\ ok = FALSE
     /\ UNCHANGED <<store, wq, bcast>>
 
@@ -134,6 +140,23 @@ Delete(i) ==
     /\ last' = [act |-> "Delete", id |-> i]
     /\ UNCHANGED bcast
 
+(* Bulk load (cli `load`): the events of a dump go through add_event one after the other, nobody reads the answers, and   *)
+(* the writer has drained when the command returns.  Only the store at the end is observed: it is one of the stores that   *)
+(* the Submit / WriterStep steps of the single events can produce.  Not part of Next (a configuration adds it for chosen   *)
+(* sequences, see MC_Store!SpecL); the trace specification uses it to judge a recorded load.                               *)
+RECURSIVE LoadPosts(_, _)
+LoadPosts(S, seq) ==
+    IF seq = <<>> THEN {S}
+    ELSE LET i == Head(seq)
+             nexts == IF ~Admissible(i) \/ i \in S THEN {S}
+                      ELSE AllowedPost(S, i) \cup (IF Dubious(i) THEN {S} ELSE {})
+         IN UNION {LoadPosts(N, Tail(seq)) : N \in nexts}
+Load(seq) ==
+    /\ wq = <<>>
+    /\ store' \in LoadPosts(store, seq)
+    /\ last' = [act |-> "Load", seq |-> seq]
+    /\ UNCHANGED <<wq, bcast>>
+
 (* process death and restart: committed state survives, the queue does not *)
 Crash ==
     /\ wq' = <<>>
@@ -178,7 +201,7 @@ C16_PolicyFailClosed == FailClosed(store, wq, bcast)
 A_C06_RefusedLeavesNoTrace ==
     \A i \in Ids : (Submitted(i) /\ last'.ok = FALSE) => UNCHANGED <<store, wq, bcast>>
 A_C06_AdmissibleNotRefused ==
-    \A i \in Ids : (Submitted(i) /\ Admissible(i) /\ i \notin store \cup Pending) => last'.ok = TRUE
+    \A i \in Ids : (Submitted(i) /\ Admissible(i) /\ ~Dubious(i) /\ i \notin store \cup Pending) => last'.ok = TRUE
 A_C06_DuplicateChangesNothing ==
     \A i \in Ids : (Submitted(i) /\ i \in store) => UNCHANGED <<store, wq, bcast>>
 \* OK=true => afterwards retrievable, or ephemeral (and broadcast), or superseded by a not-older version
@@ -200,6 +223,8 @@ A_C07_Atomic ==
     \/ \E i \in Ids : Applied(i) /\ store' \in AllowedPost(store, i)
     \/ last'.act = "Gc" /\ store' = GcPost(store, last'.T)
     \/ last'.act \in {"Writer", "Delete"} /\ \E i \in Ids : store' = store \ {i}
+    \/ last'.act = "Load" /\ \E n \in 0..Len(last'.seq) :               \* a sequence of complete applications
+                                store' \in LoadPosts(store, SubSeq(last'.seq, 1, n))
 
 \* C08: a deletion removes own referenced events (at least the older ones) and nothing else
 A_C08_OnlyAuthorDeletes ==
